@@ -75,6 +75,7 @@ class Unit:
         self.guard_panics = False
         self.substs = []   # (scope, is_regex, frm, to)
         self.forloops = []  # (scope, expr literal, replacement iterator expr)   rule R7
+        self.absent = []    # (scope, literal) that must not survive the rewrites (a substitution pattern was lost)
         self.files = {}
         self.items_cache = {}
         self.verus_args = []
@@ -152,6 +153,9 @@ class Unit:
                 if n:
                     text = text.replace(frm, pad_nl(frm, to))
                     out.count('R8', n)
+        for sc, lit in self.absent:
+            if (sc == '*' or sc == scope or (sc.endswith('*') and scope.startswith(sc[:-1]))) and lit in text:
+                raise Undecided('lost anchor: call-site substitution pattern no longer matches in %s (still contains %r)' % (scope, lit))
         return text
 
     @staticmethod
@@ -212,6 +216,9 @@ class Unit:
             elif d == 'forloop':
                 sc, frm, to = [x.strip() for x in arg.split(':::')]
                 self.forloops.append((sc, frm, to))
+            elif d == 'require-absent':
+                sc, lit = [x.strip() for x in arg.split(':::')]
+                self.absent.append((sc, lit))
             elif d in ('subst', 'resubst'):
                 sc, frm, to = [x.strip() for x in arg.split(':::')]
                 frm = frm.replace('\\n', '\n') if d == 'subst' else frm
@@ -353,10 +360,10 @@ class Unit:
         if 'noattrs' in flags:
             attrs = []
         if 'R4' in self.rules and 'nopub' not in flags:
-            if kind == 'struct':
-                text = rx.r4_struct_fields(text)
             if kind in ('struct', 'enum', 'fn', 'const', 'type', 'static', 'trait'):
                 text = rx.r4_visibility_item(text, kind)
+            if kind == 'struct':
+                text = rx.r4_struct_fields(text)
             out.count('R4', 1)
         text = self.rewrite(text, out, name)
         for a in attrs:
